@@ -1565,7 +1565,7 @@ func firstIf(v ssa.Value) (*ssa.If, bool) {
 // ---------- CDC-8 replay composes with the snapshot ----------
 
 func ruleCDC8(w *World, r *Report) {
-	r.Doc("CDC-8", "every index-scoped replay arm resolves its index through a lookup that also finds snapshot-restored indexes; VDROP drops a restored index; deletions are applied to restored indexes", 7)
+	r.Doc("CDC-8", "every index-scoped replay arm resolves its index through a lookup that also finds snapshot-restored indexes; VDROP drops a restored index; vector and KV deletions are applied to the restored state", 8)
 	rt := w.readerTable(r, "CDC-8")
 	if rt == nil {
 		return
@@ -1687,4 +1687,11 @@ func ruleCDC8(w *World, r *Report) {
 		return true
 	})
 	r.Cond(applies, "CDC-8", "apply:deletes-from-restored-index", w.Pos(fi.Decl.Pos()), "replayed deletions are applied to the live index", "replayAOF never deletes a vector from a restored index: a vector deleted after a snapshot is back after restart")
+	// KV: a DEL must reach the restored store, not only the aggregation map of this log
+	kvDel := w.FuncObj("pkg/core", "KVStore.Delete")
+	if arm := rt.Arms["DEL"]; arm != nil && kvDel != nil {
+		r.Cond(callsFn(arm.Clause, kvDel), "CDC-8", "arm:DEL:deletes-from-restored-store", w.Pos(arm.Clause.Pos()), "reaches KVStore.Delete", "the DEL arm only forgets a SET of the same log: a key that came back with the snapshot survives a delete journaled after that snapshot and is back after restart")
+	} else {
+		r.Und("CDC-8", "arm:DEL", "", "replay arm (or KVStore.Delete) missing")
+	}
 }
